@@ -174,5 +174,5 @@ func runSchedules(t *table, run *lib.Run) string {
 		terms = append(terms, fmt.Sprintf("(%s, [%s; %s])", rn.reqTerm(rs), mem, store))
 	}
 	run.Notes = append(run.Notes, notes...)
-	return fmt.Sprintf("mkCase [] [] [] [] []\n   [%s]", strings.Join(terms, ";\n    "))
+	return fmt.Sprintf("mkCase [] [] [] [] []\n   [%s] [] []", strings.Join(terms, ";\n    "))
 }
